@@ -59,18 +59,24 @@ func verifMix(z uint64) uint64 {
 	return z ^ (z >> 31)
 }
 
-// verifSelectRandn decides the poll order of a select. Stateless as well: a
-// function of the run seed, the shape of the select and (inside a synctest
-// bubble) the current fake time, which the simulator owns.
+// verifSelectRandn decides the poll order of a select: a function of the run
+// seed, the shape of the select, (inside a synctest bubble) the current fake
+// time, and a per-goroutine count of selects executed (a field added to g and
+// reset when a goroutine is created), so that a select in a loop does not make
+// the same choice forever while no shared state couples goroutines.
 //
 //go:nosplit
 func verifSelectRandn(n uint32, ncases int) uint32 {
 	if s := verifRandState; s != 0 {
 		var now int64
-		if gp := getg(); gp.bubble != nil {
-			now = gp.bubble.now
+		if b := getg().bubble; b != nil {
+			now = b.now
 		}
-		z := s ^ uint64(now)*0x9e3779b97f4a7c15 ^ uint64(ncases)<<40 ^ uint64(n)<<32
+		gp := getg()
+		if n == 1 {
+			gp.verifSel++ // once per select statement
+		}
+		z := s ^ uint64(now)*0x9e3779b97f4a7c15 ^ uint64(ncases)<<40 ^ uint64(n)<<32 ^ uint64(gp.verifSel)<<8
 		return uint32(verifMix(z) % uint64(n))
 	}
 	return cheaprandn(n)
@@ -92,7 +98,23 @@ s = must_replace(s, '''	for i := range key {
 	}''', "alg.go")
 open(os.path.join(out, "alg.go.txt"), "w").write(s)
 
+# runtime2.go: per-goroutine select counter at the end of g
+s = open(os.path.join(src, "runtime2.go")).read()
+s = must_replace(s, """	valgrindStackID uintptr
+}""", """	valgrindStackID uintptr
+
+	verifSel uint32 // simulation overlay: selects executed by this goroutine
+}""", "runtime2.go")
+open(os.path.join(out, "runtime2.go.txt"), "w").write(s)
+
+# proc.go: reset the counter when a goroutine is created
+s = open(os.path.join(src, "proc.go")).read()
+s = must_replace(s, "	newg.gopc = callerpc\n", "	newg.gopc = callerpc\n	newg.verifSel = 0 // simulation overlay\n", "proc.go")
+open(os.path.join(out, "proc.go.txt"), "w").write(s)
+
 json.dump({"Replace": {
+    "@GOROOT@/src/runtime/runtime2.go": "@OVERLAY@/runtime2.go.txt",
+    "@GOROOT@/src/runtime/proc.go": "@OVERLAY@/proc.go.txt",
     "@GOROOT@/src/runtime/rand.go": "@OVERLAY@/rand.go.txt",
     "@GOROOT@/src/runtime/select.go": "@OVERLAY@/select.go.txt",
     "@GOROOT@/src/runtime/alg.go": "@OVERLAY@/alg.go.txt",
